@@ -571,7 +571,7 @@ theorem live_stepWorker {body : Job → List JOp} {s s' : St} {a : List Act} {i 
     split at hs
     · cases hs; exact live_setW_active h i (.run j rest) hlt rfl rfl rfl _ _
     · rename_i hc; cases hs
-      exact live_addGoW h i sig a0 (.run j rest) hlt hok (by intro ⟨x, _⟩; exact hc x) rfl rfl rfl _
+      exact live_addGoW h i sig a0 (.run j rest) hlt hok (by intro ⟨x, _⟩; exact hc (by simp [x])) rfl rfl rfl _
 
 end ZstdVerif.Pool
 
@@ -796,7 +796,7 @@ theorem live_stepClient {s s' : St} {a : List Act} {i sig : Nat} (h : Live s) (h
           split at hs
           · cases hs; exact live_setC_plain h i _ ⟨.ready, rest⟩ hc rfl rfl rfl _ _
           · rename_i hcond; cases hs
-            exact live_addGoC h i sig j _ ⟨.ready, rest⟩ hc rfl hok (by intro ⟨x, _⟩; exact hcond x) rfl rfl _
+            exact live_addGoC h i sig j _ ⟨.ready, rest⟩ hc rfl hok (by intro ⟨x, _⟩; exact hcond (by simp [x])) rfl rfl _
         | joinJobs =>
           simp only at hs
           split at hs
